@@ -53,6 +53,10 @@ func init() {
 			"conditions whose failure breaks it for a nameable schedule.",
 		Fixtures: []string{"lockset", "guardcut"},
 		Variants: []Variant{
+			{Name: "duplicate-check-with-raw-name", File: pkgProxy + "/proxy.go",
+				Old: "\t\t_, exists := p.playerNames[lowerName]", New: "\t\t_, exists := p.playerNames[player.Username()]", Expect: "key-agreement"},
+			{Name: "rejected-duplicate-keeps-registry-locked", File: pkgProxy + "/proxy.go",
+				Old: "\t\tif exists {\n\t\t\tp.muP.Unlock()\n\t\t\treturn false\n\t\t}\n\t\t_, exists = p.playerIDs", New: "\t\tif exists {\n\t\t\treturn false\n\t\t}\n\t\t_, exists = p.playerIDs", Expect: "lock-released"},
 			{Name: "unconditional-delete", File: pkgProxy + "/proxy.go",
 				Old:    "\tif cur, ok := p.playerIDs[player.ID()]; ok && cur == player {\n\t\tdelete(p.playerIDs, player.ID())",
 				New:    "\tif _, ok := p.playerIDs[player.ID()]; ok {\n\t\tdelete(p.playerIDs, player.ID())",
@@ -86,6 +90,16 @@ func runC11(c *Ctx) {
 	lc := NewLockCtx(c.P, scope)
 	checkGuarded(c, lc, scope, GuardSpec{Type: pkgProxy + ":Proxy", Mutex: "muP", Fields: []string{"playerIDs", "playerNames"}})
 	c.Floor("guarded", 15)
+	// names are case-insensitive: every access of the name map uses the same (lower-cased) key spelling
+	{
+		var own []*ssa.Function
+		for _, f := range scope {
+			if fnPkgPath(f) == Mod+"/"+pkgProxy {
+				own = append(own, f)
+			}
+		}
+		checkKeyAgreement(c, lc, own, pkgProxy+":Proxy", []string{"playerNames"})
+	}
 
 	idsF := c.P.FieldVar(pkgProxy+":Proxy", "playerIDs")
 	namesF := c.P.FieldVar(pkgProxy+":Proxy", "playerNames")
